@@ -2,6 +2,8 @@ import SJ.Proofs.Tables
 import SJ.Proofs.Facts
 import SJ.Proofs.SerdeRT
 import SJ.Proofs.Framing
+import SJ.Proofs.GoFraming
+import SJ.Proofs.GoFramingModel
 /-
 C11 — Serialize/Deserialize round-trips every tape in every mode.
 -/
@@ -78,5 +80,46 @@ theorem C11_uvarint (x : Nat) (hx : x < 2^64) (pre post : Bytes) :
 /-- the differential check that re-encodes the implementation's bytes is justified: encode then split is the identity -/
 theorem C11_sections_of_encode (sec : Sections) (hs : sec.strings = #[]) (hf : Framing.FrameOK blkRaw sec) :
     sectionsOfRaw (encodeSections blkRaw sec) = some sec := Framing.sectionsOfRaw_encode sec hs hf
+
+open SJ SJ.GoSem SJ.Generated SJ.GoFraming in
+/-- **the framing part of `Deserialize` is the meaning of its source.**  For every input `src`, every destination
+    (nil or not, buffers of any capacities below 2^63) and any initial values of the locals, running the regenerated
+    block `goDeserialize_header` — from `br := bytes.NewBuffer(src)` to the last `decBlock` — ends as `headerP src` says
+    (`HdrPost`): never `stuck`, never out of fuel with one unit. -/
+theorem C11_framing_follows_source (f : FS) (prior : Array UInt64) (fuel : Nat)
+    (hsz : f.src.size < 2^63) (hprior : prior.size < 2^63)
+    (hSc : f.sB.size < 2^63) (hMc : f.mB.size < 2^63) (hT : f.tB.size < 2^63) (hV : f.vB.size < 2^63) :
+    HdrPost f prior (runFun goFuns goDeserialize_header (fuel + 1) ⟨f.env, prior⟩) :=
+  SJ.GoFraming.go_framing_source_tie f prior fuel hsz hprior hSc hMc hT hV
+
+open SJ SJ.GoSem SJ.Generated SJ.GoFraming in
+/-- **`decBlock` is the meaning of its source** (the statement of `call_decBlock` with the hand model's `SJ.decBlock`):
+    from any caller's store, `s.decBlock(br, buf, &wg, &X)` returns an error exactly when `SJ.decBlock codec` fails
+    (for every codec: failing does not depend on it); otherwise the buffer position is the model's, and applying the
+    codec's contract to what the call left (`d'` if no goroutine was started, else the recorded request) gives the
+    model's block. -/
+theorem C11_decBlock_follows_source (codec : Codec) (e : Env) (tp : Array UInt64) (X buf : String) (b : Bytes) (pos : Nat) (d : Bytes)
+    (ty cp wt sb m : Val) (fuel : Nat)
+    (hb : e.get "br.buf" = some (.bytes b)) (ho : e.get "br.off" = some (.int pos))
+    (h1 : e.get (X ++ "." ++ "started") = some (.bool false)) (h2 : e.get (X ++ "." ++ "typ") = some ty)
+    (h3 : e.get (X ++ "." ++ "compressed") = some cp) (h4 : e.get (X ++ "." ++ "want") = some wt)
+    (hS : e.get "Strings.B" = some sb) (hM : e.get "Message" = some m) (hd : e.get buf = some (.bytes d))
+    (hpos : pos ≤ b.size) (hsz : b.size < 2^63) :
+    ∃ (err : Bool) (d' : Bytes) (off : Int) (st' ty' cp' wt' : Val),
+      callFun goFuns fuel "s" "Serializer.decBlock" ["br", X] [.v buf] ⟨e, tp⟩ =
+        .ret ⟨backEnv e X b off st' ty' cp' wt' sb m, tp⟩ [.bool err, .bytes d'] ∧
+      (err = true ↔ (decBlock codec b pos d.size).1 = .fail) ∧
+      (err = false → off = (decBlock codec b pos d.size).2 ∧
+        ((st' = .bool false ∧ (decBlock codec b pos d.size).1 = .data d') ∨
+         (∃ t c, st' = .bool true ∧ ty' = .u8 t ∧ cp' = .bytes c ∧ wt' = .int d.size ∧ d' = d ∧
+            (decBlock codec b pos d.size).1 = (Pending.req t c d.size).resolve codec))) :=
+  SJ.GoFraming.decBlock_source_tie codec e tp X buf b pos d ty cp wt sb m fuel hb ho h1 h2 h3 h4 hS hM hd hpos hsz
+
+open SJ SJ.GoSem SJ.Generated SJ.GoFraming in
+/-- **the header model and the hand model agree** whenever no declared size reaches 2^63: `deserialize codec src prior`
+    fails when the header fails, and otherwise is the joins and the reconstruction (`finish`) on what the header left. -/
+theorem C11_deserialize_is_header_then_finish (codec : Codec) (src : Bytes) (prior : Array UInt64) :
+    LinkPost codec prior (headerP src) (deserialize codec src prior) :=
+  SJ.GoFraming.deserialize_eq_header codec src prior
 
 end SJ.Properties.C11
